@@ -125,6 +125,21 @@ fn hash_of(h: &History, t: usize) -> [u8; 20] {
     }
 }
 
+/// property this process checks (set once in main): a failing clause that does not belong to it must not end the
+/// history, or it would mask a later failure of a clause that does (one change often breaks several clauses)
+static FOCUS: std::sync::OnceLock<String> = std::sync::OnceLock::new();
+static OTHER_CLAUSE_FAILURES: std::sync::atomic::AtomicU64 = std::sync::atomic::AtomicU64::new(0);
+
+macro_rules! bail {
+    ($f:expr) => {{
+        let f = $f;
+        if relevant(FOCUS.get().map(|s| s.as_str()).unwrap_or(""), f.clause) {
+            return Err(f);
+        }
+        OTHER_CLAUSE_FAILURES.fetch_add(1, std::sync::atomic::Ordering::Relaxed);
+    }};
+}
+
 fn run_history(h: &History, export_dir: &str, shape: &mut Shape) -> Result<u64, Fail> {
     // a panic anywhere in the code under test (also at call sites of the read-out) is a refuting observation, not a harness crash
     match catch_unwind(AssertUnwindSafe(|| run_history_inner(h, export_dir, shape))) {
@@ -245,10 +260,10 @@ fn run_history_inner(h: &History, export_dir: &str, shape: &mut Shape) -> Result
                     None => return Err(fail("reply_kind", "udp.swarm.announce.reply_kind", format!("announce produced {:?}", response))),
                 };
                 if reply.is_v4 != (fam == Fam::V4) {
-                    return Err(fail("family", "udp.swarm.announce.family", format!("source {:?} (canonical {:?}) answered with is_v4={}", src_ip, canon, reply.is_v4)));
+                    bail!(fail("family", "udp.swarm.announce.family", format!("source {:?} (canonical {:?}) answered with is_v4={}", src_ip, canon, reply.is_v4)));
                 }
                 if reply.tid != i as i32 {
-                    return Err(fail("reply_kind", "udp.swarm.announce.tid", "transaction id not echoed".into()));
+                    bail!(fail("reply_kind", "udp.swarm.announce.tid", "transaction id not echoed".into()));
                 }
                 if reply.seeders as i64 != view.seeders as i64 || reply.leechers as i64 != view.leechers as i64 {
                     return Err(fail(
@@ -259,7 +274,7 @@ fn run_history_inner(h: &History, export_dir: &str, shape: &mut Shape) -> Result
                 }
                 let limit = if *numwant <= 0 { h.max_response_peers } else { (*numwant as usize).min(h.max_response_peers) };
                 if let Err(e) = check_peer_list(&reply.peers, &view.others, &key, limit, false) {
-                    return Err(fail("peerlist", "udp.swarm.announce.peerlist", e));
+                    bail!(fail("peerlist", "udp.swarm.announce.peerlist", e));
                 }
                 // coverage accounting: representation shadow
                 let large = is_large.entry((fam, hash)).or_insert(false);
@@ -317,7 +332,7 @@ fn run_history_inner(h: &History, export_dir: &str, shape: &mut Shape) -> Result
                     Err(p) => return Err(fail("panic", &format!("udp.swarm.scrape.panic:{}", panic_text(&*p)), "scrape panicked".into())),
                 };
                 if response.torrent_stats.len() != hashes.len() {
-                    return Err(fail("scrape", "udp.swarm.scrape.len", format!("{} entries for {} hashes", response.torrent_stats.len(), hashes.len())));
+                    bail!(fail("scrape", "udp.swarm.scrape.len", format!("{} entries for {} hashes", response.torrent_stats.len(), hashes.len())));
                 }
                 for (j, hash) in hashes.iter().enumerate() {
                     let (s, l) = model.scrape(fam, hash);
@@ -371,7 +386,7 @@ fn run_history_inner(h: &History, export_dir: &str, shape: &mut Shape) -> Result
                     ));
                 }
                 if reply.seeders as usize != view.seeders || reply.leechers as usize != view.leechers {
-                    return Err(fail("counts", "udp.swarm.announce.counts", format!("observer saw {}/{} reference {}/{}", reply.seeders, reply.leechers, view.seeders, view.leechers)));
+                    bail!(fail("counts", "udp.swarm.announce.counts", format!("observer saw {}/{} reference {}/{}", reply.seeders, reply.leechers, view.seeders, view.leechers)));
                 }
                 // and leave again
                 let stop = announce_request(hash, [0x0b; 20], observer_port, 3, 1, 0, 0, i as i32);
@@ -454,7 +469,7 @@ fn run_history_inner(h: &History, export_dir: &str, shape: &mut Shape) -> Result
                 let (mt4, mp4) = model.totals(Fam::V4);
                 let (mt6, mp6) = model.totals(Fam::V6);
                 if (t4, t6) != (mt4, mt6) {
-                    return Err(fail("stats_torrents", "udp.stats.torrent_totals", format!("reported torrents v4/v6 {}/{} but stored {}/{}", t4, t6, mt4, mt6)));
+                    bail!(fail("stats_torrents", "udp.stats.torrent_totals", format!("reported torrents v4/v6 {}/{} but stored {}/{}", t4, t6, mt4, mt6)));
                 }
                 if (p4, p6) != (mp4, mp6) {
                     let sig = if p4 == mp4 + forbidden_peers_v4 && p6 == mp6 + forbidden_peers_v6 && forbidden_peers_v4 + forbidden_peers_v6 > 0 {
@@ -462,7 +477,7 @@ fn run_history_inner(h: &History, export_dir: &str, shape: &mut Shape) -> Result
                     } else {
                         "udp.stats.peer_totals"
                     };
-                    return Err(fail("stats_peers", sig, format!("reported peers v4/v6 {}/{} but stored {}/{} (peers of torrents dropped by the access list in this pass: {}/{})", p4, p6, mp4, mp6, forbidden_peers_v4, forbidden_peers_v6)));
+                    bail!(fail("stats_peers", sig, format!("reported peers v4/v6 {}/{} but stored {}/{} (peers of torrents dropped by the access list in this pass: {}/{})", p4, p6, mp4, mp6, forbidden_peers_v4, forbidden_peers_v6)));
                 }
                 // C20 per-client tallies (message stream folded with the statistics worker's rule)
                 drain(&mut tally);
@@ -484,7 +499,7 @@ fn run_history_inner(h: &History, export_dir: &str, shape: &mut Shape) -> Result
                     } else {
                         "udp.stats.client_tally"
                     };
-                    return Err(fail("client_tally", sig, format!("per-peer-id tallies differ from stored peers: {}", diff.join("; "))));
+                    bail!(fail("client_tally", sig, format!("per-peer-id tallies differ from stored peers: {}", diff.join("; "))));
                 }
                 if forbidden_peers_v4 + forbidden_peers_v6 > 0 {
                     shape.cnt("forbidden_dropped_with_peers");
@@ -501,14 +516,14 @@ fn run_history_inner(h: &History, export_dir: &str, shape: &mut Shape) -> Result
                         let parts: Vec<&str> = line.split(' ').collect();
                         let ok = parts.len() == 4 && (parts[0] == "4" || parts[0] == "6") && parts[1].len() == 40;
                         if !ok {
-                            return Err(fail("export", "udp.export.malformed_line", format!("malformed export line {:?}", line)));
+                            bail!(fail("export", "udp.export.malformed_line", format!("malformed export line {:?}", line)));
                         }
                         let fam = if parts[0] == "4" { Fam::V4 } else { Fam::V6 };
                         let hh: [u8; 20] = vcore::unhex(parts[1]).try_into().unwrap();
                         let s: usize = parts[2].parse().unwrap_or(usize::MAX);
                         let l: usize = parts[3].parse().unwrap_or(usize::MAX);
                         if got.insert((fam, hh), (s, l)).is_some() {
-                            return Err(fail("export", "udp.export.duplicate_line", format!("torrent listed twice: {:?}", line)));
+                            bail!(fail("export", "udp.export.duplicate_line", format!("torrent listed twice: {:?}", line)));
                         }
                     }
                     // torrents forbidden by the list but still holding peers at export time: don't care
@@ -518,13 +533,13 @@ fn run_history_inner(h: &History, export_dir: &str, shape: &mut Shape) -> Result
                             Some(g) if g == v => {}
                             None if forbidden => {}
                             other => {
-                                return Err(fail("export", "udp.export.content", format!("export entry for {:?} {} is {:?}, stored seeders/leechers {:?}", k.0, vcore::hex(&k.1), other, v)));
+                                bail!(fail("export", "udp.export.content", format!("export entry for {:?} {} is {:?}, stored seeders/leechers {:?}", k.0, vcore::hex(&k.1), other, v)));
                             }
                         }
                     }
                     for k in got.keys() {
                         if !after_expiry.contains_key(k) {
-                            return Err(fail("export", "udp.export.content", format!("export lists {:?} {} which has no stored peers", k.0, vcore::hex(&k.1))));
+                            bail!(fail("export", "udp.export.content", format!("export lists {:?} {} which has no stored peers", k.0, vcore::hex(&k.1))));
                         }
                     }
                     shape.cnt("export_checked");
@@ -812,6 +827,7 @@ fn relevant(property: &str, clause: &str) -> bool {
 fn main() {
     let args = Args::parse();
     let property = args.property();
+    let _ = FOCUS.set(property.clone());
     silence_panics();
     let export_dir = args.str("tmpdir", "/verif/evidence/tmp");
     let export_dir = format!("{}/udp_swarm_{}", export_dir, std::process::id());
